@@ -236,7 +236,8 @@ def handleUed (j : Json) : Json :=
   let run := steps.foldl (fun (acc : List Bytes × List Json) st =>
       let s := sB st "s"
       let (atoms', ret) :=
-        if getStr st "op" == "add" then
+        if getBool st "invalid" then (acc.1, false)      -- the atom parser refuses the string
+        else if getStr st "op" == "add" then
           match Lc.Profile.uedAdd acc.1 s with
           | .ok a => (a, true)
           | .error _ => (acc.1, false)
@@ -246,12 +247,15 @@ def handleUed (j : Json) : Json :=
   -- specification: an insertion-ordered set of atom strings
   let spec := steps.foldl (fun (acc : List Bytes × List (List Bytes)) st =>
       let s := sB st "s"
-      let a := if getStr st "op" == "add" then (if acc.1.contains s then acc.1 else acc.1 ++ [s])
+      let a := if getBool st "invalid" then acc.1
+               else if getStr st "op" == "add" then (if acc.1.contains s then acc.1 else acc.1 ++ [s])
                else acc.1.filter (· != s)
       (a, acc.2 ++ [a])) ([], [])
   let impl := getObj j "impl"
   let implAtoms := (getArr impl "trace").map fun t => strList t "atoms"
-  obj [("model", model), ("holds", Json.bool (getStr impl "cls" == "ok" && implAtoms == spec.2)),
+  -- an invalid string is refused every time it is offered
+  let refusals := ((getArr impl "trace").zip steps).all fun (t, st) => !getBool st "invalid" || !getBool t "ret"
+  obj [("model", model), ("holds", Json.bool (getStr impl "cls" == "ok" && implAtoms == spec.2 && refusals)),
        ("tags", Json.arr #[Json.str s!"steps:{steps.length}"])]
 
 def handle (op : String) (j : Json) : Option Json :=
